@@ -140,3 +140,13 @@ theorem fixed_history_listed_a_replayed_version_twice :
     (histKeyFwdD true none 100
       (withCopies (fun v => decide (v.seq ≥ 11)) [⟨12, .set, 12, 1⟩, ⟨11, .set, 11, 1⟩, ⟨3, .set, 3, 1⟩])).map (·.seq)
       = [12, 11, 3] := by decide
+
+
+/-- known finding `history-commit-order-until-flush`: put@300, put@100, put@200 (back-filled timestamps, version
+index).  While unflushed the loop sees the versions in commit order and lists 200, 100, 300; the index (and the
+property) order them by timestamp: 300, 200, 100 — the listing changes with the flush. -/
+theorem C10_finding_commit_order_until_flush :
+    let vs : List HVer := [⟨3, .set, 200, 3⟩, ⟨2, .set, 100, 2⟩, ⟨1, .set, 300, 1⟩]
+    (histKeyFwd true none 100 false false false vs).map (·.ts) = [200, 100, 300] ∧
+    (specKey { tombs := true } 100 (sortTs vs)).map (·.ts) = [300, 200, 100] ∧
+    getAt 100 300 vs = specGetAt 100 300 (sortTs vs) := by decide
